@@ -70,18 +70,20 @@ structure RInv (S : Bytes) (b : Reader) : Prop where
   capPos : 0 < b.cap
   last : b.cur = [] → ∀ x, b.lastByte = some x → b.consumed.getLast? = some x
   pre : (b.cur = [] ∧ b.lastByte.isSome) ∨ b.pre <:+ b.consumed
+  rune : ∀ k, b.lastRune = some k → b.pre = [] ∨ (1 ≤ k ∧ k ≤ b.pre.length ∧ b.pre <:+ b.consumed)
 
 theorem inv_new (cap : Nat) (src : Script) : RInv (srcBytes src) (Reader.new cap src) := by
-  refine ⟨by simp [Reader.new], by simp [Reader.new], ?_, ?_, by simp [Reader.new], by simp [Reader.new]⟩
+  refine ⟨by simp [Reader.new], by simp [Reader.new], ?_, ?_, by simp [Reader.new], by simp [Reader.new],
+    by simp [Reader.new]⟩
   · simp [Reader.new]
   · simp only [Reader.new]; split <;> omega
 
 theorem inv_fill {S : Bytes} {b : Reader} (h : RInv S b) : RInv S b.fill := by
-  obtain ⟨h1, h2, h3, h4, h5, h6⟩ := h
+  obtain ⟨h1, h2, h3, h4, h5, h6, h7⟩ := h
   have hb := srcRead_bytes b.src (b.cap - b.cur.length)
   have hl := srcRead_len b.src (b.cap - b.cur.length)
   unfold Reader.fill
-  refine ⟨?_, h2, ?_, h4, ?_, ?_⟩
+  refine ⟨?_, h2, ?_, h4, ?_, ?_, fun _ _ => Or.inl rfl⟩
   · simp only
     rw [← h1, ← hb]; simp [List.append_assoc]
   · simp only [List.length_nil, List.length_append]; omega
@@ -100,14 +102,26 @@ theorem fill_cap (b : Reader) : b.fill.cap = b.cap := by
   unfold Reader.fill; rfl
 
 theorem inv_clearErr {S : Bytes} {b : Reader} (h : RInv S b) : RInv S b.clearErr := by
-  obtain ⟨h1, h2, h3, h4, h5, h6⟩ := h
-  exact ⟨h1, h2, h3, h4, h5, h6⟩
+  obtain ⟨h1, h2, h3, h4, h5, h6, h7⟩ := h
+  exact ⟨h1, h2, h3, h4, h5, h6, h7⟩
+
+theorem inv_noRune {S : Bytes} {b : Reader} (h : RInv S b) : RInv S { b with lastRune := none } := by
+  obtain ⟨h1, h2, h3, h4, h5, h6, h7⟩ := h
+  exact ⟨h1, h2, h3, h4, h5, h6, by simp⟩
 
 theorem inv_consume {S : Bytes} {b : Reader} (h : RInv S b) (k cnt : Nat)
     (hc : cnt = (b.cur.take k).length) : RInv S (b.consume k cnt) := by
-  obtain ⟨h1, h2, h3, h4, h5, h6⟩ := h
+  obtain ⟨h1, h2, h3, h4, h5, h6, h7⟩ := h
   unfold Reader.consume
-  refine ⟨?_, ?_, ?_, h4, ?_, ?_⟩
+  refine ⟨?_, ?_, ?_, h4, ?_, ?_, ?_⟩
+  rotate_left 5
+  · simp only
+    intro k' hk'
+    by_cases ho : (List.take k b.cur).isEmpty
+    · simp only [ho, if_true] at hk'
+      have ht : List.take k b.cur = [] := by simpa using ho
+      rw [ht]; simpa using h7 k' hk'
+    · simp [ho] at hk'
   · simp only
     rw [← h1]; simp only [List.append_assoc]
     rw [← List.append_assoc (List.take k b.cur), List.take_append_drop]
@@ -156,13 +170,13 @@ theorem consume_pre {S : Bytes} {b : Reader} (h : RInv S b) (k cnt : Nat) (hne :
 /-- un-reading one byte through `b.r--` (UnreadByte's second branch, ReadLine's CR put-back) -/
 theorem inv_unstep {S : Bytes} {b : Reader} (h : RInv S b) (hs : b.pre <:+ b.consumed) (y : UInt8)
     (hy : b.pre.getLast? = some y) (lb : Option UInt8) :
-    RInv S { b with pre := b.pre.dropLast, cur := y :: b.cur, lastByte := lb, total := b.total - 1,
-                    consumed := b.consumed.dropLast } := by
-  obtain ⟨h1, h2, h3, h4, h5, h6⟩ := h
+    RInv S { b with pre := b.pre.dropLast, cur := y :: b.cur, lastByte := lb, lastRune := none,
+                    total := b.total - 1, consumed := b.consumed.dropLast } := by
+  obtain ⟨h1, h2, h3, h4, h5, h6, h7⟩ := h
   have hcl := getLast?_suffix hs hy
   have hne : b.pre ≠ [] := by intro h; simp [h] at hy
   have hpl : 0 < b.pre.length := List.length_pos_iff.mpr hne
-  refine ⟨?_, ?_, ?_, h4, ?_, ?_⟩
+  refine ⟨?_, ?_, ?_, h4, ?_, ?_, by simp⟩
   · simp only
     rw [← h1]
     conv => rhs; rw [← dropLast_append_last hcl]
@@ -176,9 +190,9 @@ theorem inv_unreadByte {S : Bytes} {b : Reader} (h : RInv S b) : RInv S b.unread
   unfold Reader.unreadByte
   split
   · rename_i x hc hl
-    obtain ⟨h1, h2, h3, h4, h5, h6⟩ := h
+    obtain ⟨h1, h2, h3, h4, h5, h6, h7⟩ := h
     have hcl := h5 hc x hl
-    refine ⟨?_, ?_, ?_, h4, by simp, by right; simp⟩
+    refine ⟨?_, ?_, ?_, h4, by simp, by right; simp, by simp⟩
     · simp only
       rw [← h1, hc]
       conv => rhs; rw [← dropLast_append_last hcl]
@@ -187,7 +201,7 @@ theorem inv_unreadByte {S : Bytes} {b : Reader} (h : RInv S b) : RInv S b.unread
     · simp; omega
   · rename_i hno
     cases hy : b.pre.getLast? with
-    | none => exact h
+    | none => exact inv_noRune h
     | some y =>
       simp only
       have hs : b.pre <:+ b.consumed := by
@@ -201,10 +215,19 @@ theorem inv_unreadByte {S : Bytes} {b : Reader} (h : RInv S b) : RInv S b.unread
 theorem inv_direct {S : Bytes} {b : Reader} (h : RInv S b) (hc : b.cur = []) (n : Nat) :
     RInv S { b with src := (srcRead b.src n).2.2, err := 0, total := b.total + (srcRead b.src n).1.length,
                     consumed := b.consumed ++ (srcRead b.src n).1,
-                    lastByte := if (srcRead b.src n).1.isEmpty then b.lastByte else (srcRead b.src n).1.getLast? } := by
-  obtain ⟨h1, h2, h3, h4, h5, h6⟩ := h
+                    lastByte := if (srcRead b.src n).1.isEmpty then b.lastByte else (srcRead b.src n).1.getLast?,
+                    lastRune := if (srcRead b.src n).1.isEmpty then b.lastRune else none } := by
+  obtain ⟨h1, h2, h3, h4, h5, h6, h7⟩ := h
   have hb := srcRead_bytes b.src n
-  refine ⟨?_, ?_, h3, h4, ?_, ?_⟩
+  refine ⟨?_, ?_, h3, h4, ?_, ?_, ?_⟩
+  rotate_left 4
+  · simp only
+    intro k' hk'
+    by_cases ho : (srcRead b.src n).1.isEmpty
+    · simp only [ho, if_true] at hk'
+      have ht : (srcRead b.src n).1 = [] := by simpa using ho
+      rw [ht]; simpa using h7 k' hk'
+    · simp [ho] at hk'
   · simp only
     rw [← h1, ← hb, hc]; simp [List.append_assoc]
   · simp only [List.length_append]; omega
@@ -294,12 +317,15 @@ theorem inv_readByteLoop {S : Bytes} (f : Nat) (b : Reader) (h : RInv S b) :
 /-- ReadSlice post-condition: invariant, the line is exactly what was consumed, and after a non-empty
     line `buf[0:r]` is a suffix of the consumed stream (what ReadLine's `b.r--` relies on) -/
 def SlicePost (S : Bytes) (b : Reader) (r : Reader × Bytes × Nat) : Prop :=
-  RInv S r.1 ∧ r.1.consumed = b.consumed ++ r.2.1 ∧ (r.2.1 ≠ [] → r.1.pre <:+ r.1.consumed)
+  RInv S r.1 ∧ r.1.consumed = b.consumed ++ r.2.1 ∧
+    (r.2.1 ≠ [] → r.1.pre <:+ r.1.consumed ∧ r.1.lastRune = none)
 
 theorem slicePost_consume {S : Bytes} {b0 b : Reader} (h : RInv S b) (hb : b.consumed = b0.consumed)
     (k cnt e : Nat) (hc : cnt = (b.cur.take k).length) :
     SlicePost S b0 (b.consume k cnt, b.cur.take k, e) :=
-  ⟨inv_consume h k cnt hc, by rw [consume_consumed, hb], fun hne => consume_pre h k cnt hne⟩
+  ⟨inv_consume h k cnt hc, by rw [consume_consumed, hb], fun hne => ⟨consume_pre h k cnt hne, by
+    have : (List.take k b.cur).isEmpty = false := by simpa using hne
+    simp [Reader.consume, this]⟩⟩
 
 theorem inv_readSliceLoop {S : Bytes} (f : Nat) (b0 b : Reader) (d : UInt8) (h : RInv S b)
     (hb : b.consumed = b0.consumed) : SlicePost S b0 (Reader.readSliceLoop f b d) := by
@@ -372,9 +398,123 @@ theorem inv_readLine {S : Bytes} (b : Reader) (h : RInv S b) : RInv S b.readLine
       have hne : line ≠ [] := by intro h0; simp [h0] at hcr
       cases hy : b1.pre.getLast? with
       | none => exact h1
-      | some y => exact inv_unstep h1 (h3 hne) y hy b1.lastByte
+      | some y =>
+        have hr := (h3 hne).2
+        have := inv_unstep h1 (h3 hne).1 y hy b1.lastByte
+        simp only
+        cases b1
+        simp only at hr
+        subst hr
+        exact this
     · exact h1
   · split <;> exact h1
+
+/-! #### runes -/
+
+theorem decodeRune_size (p : Bytes) (h : p ≠ []) :
+    1 ≤ (decodeRune p).2 ∧ (decodeRune p).2 ≤ p.length := by
+  unfold decodeRune
+  cases p with
+  | nil => exact absurd rfl h
+  | cons c rest =>
+    simp only
+    generalize utf8First c = t
+    obtain ⟨sz, lo, hi⟩ := t
+    simp only
+    repeat' split
+    all_goals (simp_all <;> omega)
+
+theorem inv_readRuneLoop {S : Bytes} (f : Nat) (b : Reader) (h : RInv S b) :
+    RInv S (Reader.readRuneLoop f b) ∧ (Reader.readRuneLoop f b).consumed = b.consumed := by
+  induction f generalizing b with
+  | zero => exact ⟨h, rfl⟩
+  | succ f ih =>
+    unfold Reader.readRuneLoop
+    split
+    · have := ih b.fill (inv_fill h)
+      exact ⟨this.1, by rw [this.2, fill_consumed]⟩
+    · exact ⟨h, rfl⟩
+
+/-- ReadRune: invariant, and the bytes consumed are exactly `size` bytes -/
+theorem inv_readRune {S : Bytes} (b : Reader) (h : RInv S b) :
+    RInv S b.readRune.1 ∧ b.readRune.1.consumed.length = b.consumed.length + b.readRune.2.2.1 ∧
+      b.consumed <+: b.readRune.1.consumed := by
+  have hl := inv_readRuneLoop b.fuel b h
+  unfold Reader.readRune
+  generalize Reader.readRuneLoop b.fuel b = b1 at hl
+  obtain ⟨h1, h2⟩ := hl
+  simp only
+  cases hc : b1.cur with
+  | nil =>
+    simp only
+    exact ⟨inv_noRune (inv_clearErr h1), by simp [Reader.clearErr, h2], by simp [Reader.clearErr, h2]⟩
+  | cons c t =>
+    simp only
+    -- the size is between 1 and the number of buffered bytes
+    have hsz : 1 ≤ (if c.toNat < 0x80 then (c.toNat, 1) else decodeRune (c :: t)).2 ∧
+        (if c.toNat < 0x80 then (c.toNat, 1) else decodeRune (c :: t)).2 ≤ (c :: t).length := by
+      split
+      · simp
+      · exact decodeRune_size (c :: t) (by simp)
+    generalize (if c.toNat < 0x80 then (c.toNat, 1) else decodeRune (c :: t)) = rs at hsz
+    obtain ⟨hs1, hs2⟩ := hsz
+    have htake : (b1.cur.take rs.2).length = rs.2 := by
+      rw [hc, List.length_take]; omega
+    have hne : b1.cur.take rs.2 ≠ [] := by
+      intro h0; rw [h0] at htake; simp at htake; omega
+    have hinv := inv_consume h1 rs.2 rs.2 htake.symm
+    have hpre := consume_pre h1 rs.2 rs.2 hne
+    obtain ⟨g1, g2, g3, g4, g5, g6, g7⟩ := hinv
+    refine ⟨⟨g1, g2, g3, g4, g5, g6, ?_⟩, ?_, ?_⟩
+    · intro k hk
+      simp only [Option.some.injEq] at hk
+      subst hk
+      right
+      refine ⟨hs1, ?_, hpre⟩
+      simp only [Reader.consume, List.length_append]
+      omega
+    · simp only [Reader.consume, List.length_append, h2]; omega
+    · simp only [Reader.consume, h2]; exact List.prefix_append _ _
+
+/-- UnreadRune: moves exactly the last `lastRuneSize` consumed bytes back (or fails and changes nothing) -/
+theorem inv_unreadRune {S : Bytes} (b : Reader) (h : RInv S b) : RInv S b.unreadRune.1 := by
+  unfold Reader.unreadRune
+  cases hlr : b.lastRune with
+  | none => exact h
+  | some k =>
+    simp only
+    split
+    · exact h
+    · rename_i hpe
+      have hpne : b.pre ≠ [] := by simpa using hpe
+      obtain ⟨h1, h2, h3, h4, h5, h6, h7⟩ := h
+      rcases h7 k hlr with h0 | ⟨hk1, hk2, hsuf⟩
+      · exact absurd h0 hpne
+      · obtain ⟨t, ht⟩ := hsuf
+        have hclen : b.consumed.length = t.length + b.pre.length := by rw [← ht]; simp
+        have htake : b.consumed.take (b.consumed.length - k) = t ++ b.pre.take (b.pre.length - k) := by
+          rw [← ht, List.take_append]
+          have : (t ++ b.pre).length - k - t.length = b.pre.length - k := by simp; omega
+          rw [this, List.take_of_length_le (by simp; omega)]
+        have hsplit : b.pre.take (b.pre.length - k) ++ b.pre.drop (b.pre.length - k) = b.pre :=
+          List.take_append_drop _ _
+        refine ⟨?_, ?_, ?_, h4, ?_, ?_, by simp⟩
+        · simp only
+          rw [htake, ← h1, ← ht]
+          simp only [List.append_assoc]
+          rw [← List.append_assoc (List.take _ b.pre), hsplit]
+        · simp only
+          have : b.total ≥ k := by omega
+          simp only [this, if_true, List.length_take]; omega
+        · simp only [List.length_take, List.length_append, List.length_drop]; omega
+        · simp only
+          intro hc
+          have : (b.pre.drop (b.pre.length - k)).length = 0 := by
+            have := congrArg List.length hc; simp at this; omega
+          simp at this; omega
+        · right
+          simp only
+          rw [htake]; exact List.suffix_append _ _
 
 theorem inv_writeBuf {S : Bytes} (b : Reader) (ws : WScript) (h : RInv S b) :
     RInv S (b.writeBuf ws).1 ∧ (b.writeBuf ws).1.consumed = b.consumed ++ (b.writeBuf ws).2.2.2.2 := by
@@ -424,13 +564,15 @@ theorem inv_writeTo {S : Bytes} (b : Reader) (ws : WScript) (h : RInv S b) :
 theorem inv_apply {S : Bytes} (b : Reader) (op : ROp) (h : RInv S b) : RInv S (b.apply op) := by
   cases op with
   | rd n => exact (inv_read b n h).1
-  | rb => exact (inv_readByteLoop _ b h).1
+  | rb => exact (inv_readByteLoop _ _ (inv_noRune h)).1
   | ub => exact inv_unreadByte h
   | pk n => exact (inv_peek b n h).1
   | rs d => exact (inv_readSlice b d h).1
   | rl => exact inv_readLine b h
   | wt ws => exact (inv_writeTo b ws h).1
   | rbs d => exact (inv_readBytes b d h).1
+  | rr => exact (inv_readRune b h).1
+  | ur => exact inv_unreadRune b h
 
 theorem inv_ops {S : Bytes} (b : Reader) (ops : List ROp) (h : RInv S b) : RInv S (ops.foldl Reader.apply b) := by
   induction ops generalizing b with
@@ -767,6 +909,31 @@ theorem winv_readFrom (b : Writer) (src : Script) (h : WInv b) : WInv (b.readFro
     obtain ⟨u1, u2, u3⟩ := hb2
     exact ⟨u1, by simp only; rw [u2, u3]; omega⟩
 
+theorem winv_appendRune (b : Writer) (enc : Bytes) (h : WInv b) : WInv (b.appendRune enc).1 := by
+  refine ⟨?_, ?_⟩
+  · simp only [Writer.appendRune]; rw [← List.append_assoc, h.stream]
+  · simp only [Writer.appendRune, List.length_append]; rw [h.cnt]
+
+theorem winv_writeRune (b : Writer) (r : Nat) (h : WInv b) : WInv (b.writeRune r).1 := by
+  unfold Writer.writeRune
+  split
+  · have := winv_writeByte b (UInt8.ofNat r) h
+    generalize b.writeByte (UInt8.ofNat r) = x at this
+    obtain ⟨b', e⟩ := x
+    simp only at this ⊢
+    split <;> exact this
+  · split
+    · exact h
+    · split
+      · simp only
+        have hf := (winv_flush b h).1
+        split
+        · exact hf
+        · split
+          · exact (winv_write false _ _ hf).1
+          · exact winv_appendRune _ _ hf
+      · exact winv_appendRune _ _ h
+
 theorem winv_apply (b : Writer) (op : WOp) (h : WInv b) : WInv (b.apply op) := by
   cases op with
   | w p => exact (winv_write true b p h).1
@@ -774,6 +941,7 @@ theorem winv_apply (b : Writer) (op : WOp) (h : WInv b) : WInv (b.apply op) := b
   | wb c => exact winv_writeByte b c h
   | fl => exact (winv_flush b h).1
   | rf src => exact winv_readFrom b src h
+  | wr r => exact winv_writeRune b r h
 
 theorem winv_ops (b : Writer) (ops : List WOp) (h : WInv b) : WInv (ops.foldl Writer.apply b) := by
   induction ops generalizing b with
